@@ -1,5 +1,7 @@
 import RzmqModel.Model.RpqInv
 import RzmqModel.Proofs.RpqInv
+import RzmqModel.Proofs.RpqCancel
+import RzmqModel.Props.C08
 /-!
 # C09 — dropping a send or recv future is safe at every await point (ready-pipe-queue level)
 
@@ -23,12 +25,39 @@ def Parked (s : RpqSt) (t : String) : Prop :=
 theorem arm_points_never_park (s : RpqSt) (t : String) (hw : WellFormed s) (hi : Inv s) (p : Nat) (prev : Int)
     (ht : s.task? t = some (.sendCounted p prev) ∨ (∃ item, s.task? t = some (.popDecremented p item prev))) :
     (s.step t).2 ≠ .blocked := by
-  sorry
+  unfold RpqSt.step
+  rcases ht with ht | ⟨item, ht⟩
+  · simp only [ht]
+    split
+    · rename_i hprev
+      have hprev' : prev = 0 := by simpa using hprev
+      have := arm_not_blocked s t hw hi p _ ht (by simp [holdsToken, hprev'])
+      cases hpush : s.pushReady p with
+      | none => simp [hpush] at this
+      | some s' => simp [finish]
+    · simp [finish]
+  · simp only [ht]
+    split
+    · rename_i hprev
+      have := arm_not_blocked s t hw hi p _ ht (by simp [holdsToken, hprev])
+      cases hpush : s.pushReady p with
+      | none => simp [hpush] at this
+      | some s' => simp [finish]
+    · simp [finish]
 
 /-- dropping a parked future preserves the queue invariant (reservations are rolled back, no token is lost) -/
 theorem cancel_preserves_inv (s : RpqSt) (t : String) (hw : WellFormed s) (hi : Inv s) (hp : Parked s t) :
     WellFormed (s.cancel t).1 ∧ Inv (s.cancel t).1 := by
-  sorry
+  unfold Parked at hp
+  cases ht : s.task? t with
+  | none => simp [ht] at hp
+  | some pc =>
+    cases pc <;> simp only [ht] at hp <;>
+      first
+      | exact hp.elim
+      | exact cancel_inv_idle s t hw hi _ ht rfl
+      | exact cancel_inv_finished s t hw hi _ ht
+      | (obtain ⟨ps, hps, _⟩ := hp; exact cancel_inv_sendReserved s t hw hi _ _ ps ht hps)
 
 /-- dropping a parked future loses nothing that was queued and delivers nothing: channels, ready list and
 the logs of accepted / taken / returned items are untouched -/
@@ -36,13 +65,13 @@ theorem cancel_loses_nothing (s : RpqSt) (t : String) (hp : Parked s t) :
     (s.cancel t).1.ready = s.ready ∧ (s.cancel t).1.accepted = s.accepted ∧ (s.cancel t).1.takenLog = s.takenLog
     ∧ (s.cancel t).1.returned = s.returned
     ∧ ∀ p, ((s.cancel t).1.pipe? p).map (·.chan) = (s.pipe? p).map (·.chan) := by
-  sorry
+  exact cancel_fields s t
 
 /-- a cancelled `send` is all-or-nothing: dropped while parked on the full channel it has written nothing -/
 theorem cancelled_send_not_delivered (s : RpqSt) (t : String) (p item : Nat)
     (ht : s.task? t = some (.sendReserved p item)) :
     (s.cancel t).1.accepted = s.accepted ∧ (s.cancel t).1.task? t = some (.finished "cancelled") := by
-  sorry
+  exact ⟨(cancel_fields s t).2.1, cancel_sendReserved_task s t p item ht⟩
 
 /-- after any mix of steps and cancellations of parked tasks the invariant still holds, so the no-lost-wake-up
 guarantee (C08) survives cancellation -/
@@ -64,6 +93,17 @@ def CancelsParked : RpqSt → List Act → Prop
 theorem inv_with_cancellation (s : RpqSt) (hw : WellFormed s) (h0 : Initial s) (acts : List Act)
     (hc : CancelsParked s acts) :
     Inv (acts.foldl applyAct s) ∧ WellFormed (acts.foldl applyAct s) := by
-  sorry
+  have hi := inv_initial s h0
+  clear h0
+  induction acts generalizing s with
+  | nil => exact ⟨hi, hw⟩
+  | cons a r ih =>
+    cases a with
+    | step t =>
+      have := inv_step s t hw hi
+      exact ih (s.step t).1 this.1 hc this.2
+    | cancel t =>
+      have := cancel_preserves_inv s t hw hi hc.1
+      exact ih (s.cancel t).1 this.1 hc.2 this.2
 
 end Rzmq.C09
